@@ -66,6 +66,10 @@ func parseTagAndLength(bytes []byte) (r tagAndLen, off int, e error) {
 }
 
 func parseBitString(bytes []byte) (r BitString, e error) {
+	if len(bytes) == 0 {
+		e = fmt.Errorf("bit string without the unused-bits octet")
+		return r, e
+	}
 	r.BitLength = uint64((len(bytes)-1)*8 - int(bytes[0]))
 	r.Bytes = bytes[1:]
 	return
